@@ -5,6 +5,8 @@ Statements are about the model of Model/Doc.lean, for every statement semantics 
 (`none` = error), every store, every document.
 -/
 import MechVerif.Gen.SectionArms
+import MechVerif.Gen.FenceTag
+import MechVerif.Lemmas.FenceTag
 import MechVerif.Model.Doc
 namespace MechVerif.Doc
 
@@ -255,3 +257,77 @@ example : fenceOk ⟨true, true, false, false, true, true⟩ = false := by decid
 example : armsOk [("MechCode", .code), ("CodeBlock", .code)] = false := by decide
 
 end MechVerif.SectionArms
+
+/-! ### which code blocks are executable, and in which namespace: the parser's decision as written
+
+`Gen/FenceTag.lean` is regenerated from src/syntax/src/mechdown.rs (`code_block()`) on every run
+(`tools/extract_fencetag.py`); `C10_fence_tag_decision_as_written` (`decide`) says the extracted decision is `expectedIR`. -/
+namespace MechVerif.FenceTag
+
+/-- the three words with a meaning of their own -/
+theorem C10_plain_disabled_hidden :
+    classOf expectedIR ['m', 'e', 'c', 'h'] = .unnamed ∧
+    classOf expectedIR ['m', 'e', 'c', 'h', ':', 'd', 'i', 's', 'a', 'b', 'l', 'e', 'd'] = .disabled ∧
+    classOf expectedIR ['m', 'e', 'c', 'h', ':', 'h', 'i', 'd', 'd', 'e', 'n'] = .hidden := by decide
+
+/-- **A fence tagged `mech:<name>` runs in the namespace of exactly that name** — the whole text after the colon, for
+    every name that is not empty, does not begin with a colon and is not one of the two reserved words.  Hence two
+    fences run in one namespace iff they carry the same name. -/
+theorem C10_named_fence_namespace (n : List Char) (h : GoodName n) :
+    classOf expectedIR (['m', 'e', 'c', 'h', ':'] ++ n) = .named n := by
+  obtain ⟨hne, hhead, hd, hh⟩ := h
+  have e1 : trimStartMatches ['m', 'e', 'c', 'h'] ('m' :: 'e' :: 'c' :: 'h' :: ':' :: n) = ':' :: n := by
+    unfold trimStartMatches
+    simp [trimGo, dropPrefix?]
+  have e2 : trimStartMatches ['m', 'e', 'c'] (':' :: n) = ':' :: n := trim_not_starting _ ':' 'm' ['e', 'c'] n rfl (by decide)
+  have e3 : trimStartMatches ['🤖'] (':' :: n) = ':' :: n := trim_not_starting _ ':' '🤖' [] n rfl (by decide)
+  have e4 : trimStartMatches [':'] (':' :: n) = n := strip_colon n hhead
+  have hrest : expectedIR.strip.foldl (fun s p => trimStartMatches p s) (['m', 'e', 'c', 'h', ':'] ++ n) = n := by
+    simp only [expectedIR, List.foldl_cons, List.foldl_nil, List.cons_append, List.nil_append, e1, e2, e3, e4]
+  unfold classOf
+  rw [hrest]
+  have hg : (['m', 'e', 'c', 'h', ':'] ++ n) ≠ expectedIR.grammarTag := by simp [expectedIR]
+  rw [if_neg hg]
+  have hp : expectedIR.mechPrefixes.any (fun p => startsWith p (['m', 'e', 'c', 'h', ':'] ++ n)) = true := by
+    simp [expectedIR, startsWith, dropPrefix?]
+  rw [if_pos hp]
+  have hs : expectedIR.special.find? (fun e => e.1 == n) = none := by
+    simp only [expectedIR, List.find?_cons, List.find?_nil]
+    have a1 : (([] : List Char) == n) = false := by cases n with | nil => exact absurd rfl hne | cons _ _ => rfl
+    have a2 : ((['d', 'i', 's', 'a', 'b', 'l', 'e', 'd'] : List Char) == n) = false := by
+      rw [beq_eq_false_iff_ne]; exact fun hc => hd hc.symm
+    have a3 : ((['h', 'i', 'd', 'd', 'e', 'n'] : List Char) == n) = false := by
+      rw [beq_eq_false_iff_ne]; exact fun hc => hh hc.symm
+    simp only [a1, a2, a3]
+  show (match List.find? (fun e => e.1 == n) expectedIR.special with
+    | some (_, false, _, _) => TagClass.named n
+    | some (_, true, true, _) => TagClass.disabled
+    | some (_, true, false, true) => TagClass.hidden
+    | some (_, true, false, false) => TagClass.unnamed
+    | none => if expectedIR.otherwiseNamed = true then TagClass.named n else TagClass.notMech) = TagClass.named n
+  rw [hs]
+  rfl
+
+theorem C10_same_namespace_iff_same_name (n m : List Char) (hn : GoodName n) (hm : GoodName m) :
+    classOf expectedIR (['m', 'e', 'c', 'h', ':'] ++ n) = classOf expectedIR (['m', 'e', 'c', 'h', ':'] ++ m) ↔ n = m := by
+  rw [C10_named_fence_namespace n hn, C10_named_fence_namespace m hm]
+  constructor
+  · intro h; injection h
+  · intro h; rw [h]
+
+/-- a block whose tag does not begin with `mech`, `mec` or `🤖` is never executable -/
+theorem C10_other_blocks_never_execute (tag : List Char)
+    (h : expectedIR.mechPrefixes.any (fun p => startsWith p tag) = false) :
+    classOf expectedIR tag = .grammar ∨ classOf expectedIR tag = .notMech := by
+  unfold classOf
+  by_cases hg : tag = expectedIR.grammarTag
+  · left; rw [if_pos hg]
+  · right; rw [if_neg hg, h]; rfl
+
+/-! non-vacuity -/
+example : GoodName ['m', 'o', 'd', 'e', 'l', ':', 'a'] := by unfold GoodName; decide
+example : classOf expectedIR ['m', 'e', 'c', 'h', ':', 'm', 'o', 'd', 'e', 'l', ':', 'a'] = .named ['m', 'o', 'd', 'e', 'l', ':', 'a'] := by decide
+example : classOf expectedIR ['p', 'y', 't', 'h', 'o', 'n'] = .notMech := by decide
+example : classOf expectedIR [] = .notMech := by decide
+
+end MechVerif.FenceTag
